@@ -1,17 +1,30 @@
 //! Executor for Endian (C20): the eight wrapper types. One record per (type, value, other value).
 use crate::util::*;
 use serde_json::{json, Value};
-use vm_memory::{Be16, Be32, Be64, BeSize, ByteValued, Bytes, Le16, Le32, Le64, LeSize, VolatileSlice};
+use vm_memory::{
+    Be16, Be32, Be64, BeSize, ByteValued, Bytes, GuestAddress, GuestMemory, GuestMemoryMmap, Le16, Le32, Le64, LeSize, VolatileMemory,
+    VolatileSlice,
+};
 
-#[derive(Default)]
-pub struct EndianExec;
+/// guest memory whose second region is a single byte: an object stored one byte before it is split over up to three regions
+pub struct EndianExec {
+    gm: GuestMemoryMmap<()>,
+}
+
+impl Default for EndianExec {
+    fn default() -> Self {
+        let gm = GuestMemoryMmap::<()>::from_ranges(&[(GuestAddress(0), 0x1000), (GuestAddress(0x1000), 1), (GuestAddress(0x1001), 0x1000)])
+            .expect("harness: guest memory");
+        EndianExec { gm }
+    }
+}
 
 fn digits(v: &Value) -> Vec<u8> {
     v.as_array().expect("harness: digits").iter().map(|x| x.as_u64().unwrap() as u8).collect()
 }
 
 macro_rules! record {
-    ($W:ty, $N:ty, $v:expr, $w:expr) => {{
+    ($gm:expr, $W:ty, $N:ty, $v:expr, $w:expr) => {{
         // digits are most-significant first
         let mut nb = [0u8; std::mem::size_of::<$N>()];
         nb.copy_from_slice(&$v);
@@ -28,7 +41,30 @@ macro_rules! record {
             let y: $W = vs.read_obj(3).expect("harness: read_obj");
             y.to_native()
         };
+        // into guest memory across region boundaries, then the raw bytes address by address through the host pointers
+        const SZ: usize = std::mem::size_of::<$N>();
+        let at = 0x1000u64 - 1;
+        $gm.write_obj(x, GuestAddress(at)).expect("harness: guest write_obj");
+        let gmb: Vec<u8> = (0..SZ as u64)
+            .map(|i| unsafe { *$gm.get_host_address(GuestAddress(at + i)).expect("harness: host address") })
+            .collect();
+        // a table of three wrappers moved inside guest memory with the slice-to-slice copy
+        let mut tbuf = [0u8; 3 * SZ + 2];
+        let mut dbuf = [0x55u8; 3 * SZ + 2];
+        let arrb: Vec<u8> = {
+            let ts = VolatileSlice::from(&mut tbuf[..]);
+            let ds = VolatileSlice::from(&mut dbuf[..]);
+            let arr = ts.get_array_ref::<$W>(1, 3).expect("harness: array");
+            for i in 0..3 {
+                arr.store(i, x);
+            }
+            arr.copy_to_volatile_slice(ds.subslice(1, 3 * SZ).expect("harness: subslice"));
+            let mut o = vec![0u8; 3 * SZ + 2];
+            ds.read_slice(&mut o, 0).expect("harness: read");
+            o
+        };
         json!({
+            "gm": gmb, "arr": arrb,
             "mem": ByteValued::as_slice(&x),
             "native": native.to_be_bytes(),
             "into": via_into.to_be_bytes(),
@@ -51,14 +87,14 @@ impl Exec for EndianExec {
         let v = digits(&line["a"]["v"]);
         let w = digits(&line["a"]["w"]);
         let r = guarded(|| match ty {
-            "Le16" => record!(Le16, u16, v, w),
-            "Be16" => record!(Be16, u16, v, w),
-            "Le32" => record!(Le32, u32, v, w),
-            "Be32" => record!(Be32, u32, v, w),
-            "Le64" => record!(Le64, u64, v, w),
-            "Be64" => record!(Be64, u64, v, w),
-            "LeSize" => record!(LeSize, usize, v, w),
-            "BeSize" => record!(BeSize, usize, v, w),
+            "Le16" => record!(self.gm, Le16, u16, v, w),
+            "Be16" => record!(self.gm, Be16, u16, v, w),
+            "Le32" => record!(self.gm, Le32, u32, v, w),
+            "Be32" => record!(self.gm, Be32, u32, v, w),
+            "Le64" => record!(self.gm, Le64, u64, v, w),
+            "Be64" => record!(self.gm, Be64, u64, v, w),
+            "LeSize" => record!(self.gm, LeSize, usize, v, w),
+            "BeSize" => record!(self.gm, BeSize, usize, v, w),
             t => panic!("harness: unknown endian type {t}"),
         });
         json!({"op": "endian", "a": line["a"], "r": r, "host": if cfg!(target_endian = "little") { "le" } else { "be" }})
